@@ -93,3 +93,10 @@ def diff(a, b, ignore=()):
 def _short(x, n=160):
     s = repr(x)
     return s if len(s) <= n else s[:n] + "…"
+
+
+def json_roundtrip(c):
+    """what a canon looks like after crossing a process boundary as JSON (tuples become lists etc.)"""
+    import json
+
+    return json.loads(json.dumps(c))
